@@ -8,8 +8,9 @@
      X ...                                      echoed
    output: "C ..." echoed; per E line the same left part followed by
      | <ready_in> <valid_out> <payload_out> <eop_out> <meta_out>      ('-' while valid_out = 0)
-   Cases whose chain contains a stage without Coq machine (ff / fz = strm::fifo) are echoed unchanged
-   with the header marked "nomodel".
+   Cases whose chain contains a stage without Coq machine (ff / fz = strm::fifo) and cases with eb=1
+   (EmptyBits meta) are echoed unchanged with the header marked "nomodel".
+   px<r> / pr<r> / pm<t> are Packet.h widthExtend / widthReduce / matchWidth (DPExtend m r, DPReduce r, matchD m t).
    usage: driver <in> <out> *)
 open C16_model
 
@@ -25,17 +26,24 @@ let kv tok = match String.index_opt tok '=' with
   | None -> None
 
 let digits_of_string s = List.map (fun x -> n_of_int (int_of_string x)) (String.split_on_char '.' s)
-let string_of_digits l = String.concat "." (List.map (fun x -> string_of_int (int_of_n x)) l)
+let xd = 4294967295
+let string_of_digits l = String.concat "." (List.map (fun x -> let v = int_of_n x in if v = xd then "X" else string_of_int v) l)
 
 exception NoModel
 
-let stage_of_token t =
+(* digits: number of digits of a beat at this point of the chain (the harness tracks it the same way) *)
+let stage_of_token digits t =
   let kind = String.sub t 0 2 in
   let arg = if String.length t > 2 then int_of_string (String.sub t 2 (String.length t - 2)) else 0 in
+  let m = !digits in
   match kind with
   | "rd" -> DRegDown | "rb" -> DRegBlock | "rr" -> DRegReady | "dc" -> DRegDecouple
   | "dl" -> DDelay (nat_of_int arg) | "st" -> DStall (nat_of_int arg)
-  | "ex" -> DExtend (nat_of_int arg) | "re" -> DReduce (nat_of_int arg)
+  | "ex" -> digits := m * arg; DExtend (nat_of_int arg)
+  | "re" -> digits := m / (max 1 arg); DReduce (nat_of_int arg)
+  | "px" -> digits := m * arg; DPExtend (nat_of_int m, nat_of_int arg)
+  | "pr" -> digits := m / (max 1 arg); DPReduce (nat_of_int arg)
+  | "pm" -> digits := arg; matchD (nat_of_int m) (nat_of_int arg)
   | _ -> raise NoModel
 
 let flush_case oc desc lines =
@@ -63,13 +71,16 @@ let () =
        match toks with
        | "C" :: _id :: rest ->
          finish ();
-         let chain = ref "-" in
-         List.iter (fun t -> match kv t with Some ("chain", v) -> chain := v | _ -> ()) rest;
+         let chain = ref "-" and digits = ref 1 and eb = ref false in
+         List.iter (fun t -> match kv t with Some ("chain", v) -> chain := v | Some ("min", v) -> digits := int_of_string v
+                                            | Some ("eb", v) -> eb := (v = "1") | _ -> ()) rest;
          (try
-            let l = if !chain = "-" then [] else List.map stage_of_token (String.split_on_char ',' !chain) in
+            if !eb then raise NoModel;   (* streams with EmptyBits: no Coq machine, list oracle only *)
+            let l = if !chain = "-" then [] else List.map (stage_of_token digits) (String.split_on_char ',' !chain) in
             desc := Some (chainOf l); nomodel := false;
             output_string oc (line ^ "\n")
           with NoModel -> desc := None; nomodel := true; output_string oc (line ^ " nomodel\n"))
+       | "E" :: _ when !nomodel -> output_string oc (line ^ "\n")
        | [ "E"; v; d; e; m; r; ctl ] ->
          if !nomodel then output_string oc (line ^ "\n")
          else begin
